@@ -549,6 +549,29 @@ class GateAnalysis:
                 raw = (s != zero_t[0])
                 g.truth = (not raw) if g.negated else raw
             gs.extend(self._flatten(g))
+        # refusal by panic: `if bad { panic!(..) }` - the accept site is not control dependent on the branch in the textbook sense (the other
+        # side never returns), but it is reached only when the condition takes the side that goes on
+        have = {(g_.edge[0] if g_.edge else None) for g_ in gs}
+        for a in sorted(body.dom[bi]):
+            t = body.blocks[a]['term']
+            if a == bi or a in have or t['k'] != 'switch':
+                continue
+            succs = []
+            for x in body.succ[a]:
+                if x not in succs:
+                    succs.append(x)
+            live = [x for x in succs if not body.diverges(x)]
+            if len(live) != 1 or len(succs) < 2 or not (live[0] == bi or body.dominates(live[0], bi)):
+                continue
+            s = live[0]
+            g = classify_switch(self.eng, fd, a)
+            g.edge = (a, s)
+            g.dom = True
+            zero_t = [b_ for v, b_ in t['targets'] if v == '0']
+            if zero_t and len(t['targets']) == 1 and zero_t[0] != t['otherwise']:
+                raw = (s != zero_t[0])
+                g.truth = (not raw) if g.negated else raw
+            gs.extend(self._flatten(g))
         return gs
 
     def _flatten(self, g):
